@@ -119,12 +119,20 @@ def renderings(case):
     styles = case["styles"]
     v2_lines, v3_lines = [], []
     rename = {}
+    omitted, omitted_cols = set(), set()
     # READ without NewFieldName names the result after the input field
+    style = case.get("name_style", 0)
+    if style:
+        for c in cmds:  # result names are arbitrary identifiers: leading underscores, inner digits, mixed case
+            rename[c["name"]] = {1: "_%s", 2: "%s_", 3: "x9_%s_Y", 4: "__%s"}[style] % c["name"].lower()
     for k, c in enumerate(cmds):
         st_ = styles[k % len(styles)]
         if c["cmd"] == "EEMSRead" and st_.get("omit_new_field"):
             col = [a[1]["s"] for a in c["args"] if a[0] == "InFieldName"][0]
-            rename[c["name"]] = col
+            if col not in rename.values() and col not in omitted_cols:
+                rename[c["name"]] = col
+                omitted.add(c["name"])
+                omitted_cols.add(col)
     def rn(v):
         if isinstance(v, dict) and "r" in v:
             return {"r": rename.get(v["r"], v["r"])}
@@ -139,7 +147,7 @@ def renderings(case):
         names.append(name)
         v3_lines.append("%s = %s(%s)" % (name, c["cmd"], ", ".join("%s = %s" % (a, c12.fmt(v)) for a, v in args)))
         if c["cmd"] in V2_OF and (st_.get("v2", True) or c["cmd"] == "EEMSRead"):
-            omit = c["cmd"] == "EEMSRead" and c["name"] in rename
+            omit = c["cmd"] == "EEMSRead" and c["name"] in omitted
             line = v2_line(V2_OF[c["cmd"]], name, args, new_field=not omit and not st_.get("assigned"),
                            out_file="ignored_%d.csv" % k if st_.get("out_file") else None, pos=st_.get("pos"))
             if st_.get("assigned") and not omit:
@@ -230,7 +238,7 @@ def model_cases(draw):
         for s_ in styles:  # a file in which no command is written bare
             s_["assigned"] = True
             s_["omit_new_field"] = False
-    return {"model": model, "styles": styles}
+    return {"model": model, "styles": styles, "name_style": draw(st.sampled_from([0, 0, 1, 2, 3, 4]))}
 
 
 PARTS = {"name": check_name, "model": check_model}
